@@ -3,6 +3,7 @@ package vc
 import (
 	"fmt"
 	"go/types"
+	"regexp"
 	"strings"
 
 	"golang.org/x/tools/go/ssa"
@@ -40,9 +41,22 @@ func (p *PtrInfo) whole(e *Engine) bool {
 
 func qual(p *types.Package) string { return p.Path() }
 
+var aliasWord = regexp.MustCompile(`\b(byte|rune|any)\b`)
+
+// typeStr is the canonical name of a type: identical types get identical strings (byte = uint8, rune = int32,
+// any = interface{}), because heap families are keyed by it.
 func typeStr(t types.Type) string {
 	s := types.TypeString(types.Unalias(t), qual)
 	s = strings.ReplaceAll(s, "github.com/datastax/go-cassandra-native-protocol/", "")
+	s = aliasWord.ReplaceAllStringFunc(s, func(w string) string {
+		switch w {
+		case "byte":
+			return "uint8"
+		case "rune":
+			return "int32"
+		}
+		return "interface{}"
+	})
 	return s
 }
 
